@@ -44,9 +44,9 @@ HARNESSES = [
     dict(name=H + "kc07::c15_unimplemented_opcode_at_any_code_address", file="kani/h_c07.rs", ids=r"^C15/exec/", fn="Cpu::exec (unimpl! exits)", props=["C15"]),
     dict(name=H + "kc15::c15_fetch_any_pc", file="kani/h_c15.rs", ids=r"^C15/fetch/", fn="Cpu::fetch", props=["C15"]),
     dict(name=T + "c15_timer_any_tcr_write", file="kani/h_c17.rs", ids=r"^C15/timer/", fn="Timer8_0::update_tcr (any byte), Timer8_0::update_timer8_0", props=["C15"]),
-    dict(name=H + "kc19::c19_cost_formula", file="kani/h_c19.rs", ids=r"^C19/calc_state_with_addr/", fn="Cpu::calc_state_with_addr, Cpu::get_wait_state, Bus::get_area_index, Bus::check_dram_area, Bus::read", props=["C19", "C15"]),
-    dict(name=H + "kc19::c19_calc_state", file="kani/h_c19.rs", ids=r"^C19/calc_state/", fn="Cpu::calc_state", props=["C19", "C15"]),
-    dict(name=H + "kc19::c19_wait_and_area", file="kani/h_c19.rs", ids=r"^C19/(get_wait_state|get_area_index|check_dram_area)/", fn="Cpu::get_wait_state, Bus::get_area_index, Bus::check_dram_area", props=["C19", "C15"]),
+    dict(name=H + "kc19::c19_cost_formula", file="kani/h_c19.rs", ids=r"^C19/calc_state_with_addr/", fn="Cpu::calc_state_with_addr, Cpu::get_wait_state, Bus::get_area_index, Bus::check_dram_area, Bus::read", props=["C19", "C15"], seam_for=["C20"]),
+    dict(name=H + "kc19::c19_calc_state", file="kani/h_c19.rs", ids=r"^C19/calc_state/", fn="Cpu::calc_state", props=["C19", "C15"], seam_for=["C20"]),
+    dict(name=H + "kc19::c19_wait_and_area", file="kani/h_c19.rs", ids=r"^C19/(get_wait_state|get_area_index|check_dram_area)/", fn="Cpu::get_wait_state, Bus::get_area_index, Bus::check_dram_area", props=["C19", "C15"], seam_for=["C20"]),
 ]
 
 CUSTOM_TRUSTED = {
@@ -83,12 +83,17 @@ def literals(path):
     return sorted(i for i in ids if "/" in i and not i.endswith("/"))
 
 
+def for_prop(h, prop):
+    """a harness serves a property either as its own or as the discharge of a seam contract the property's harnesses assume"""
+    return prop in h["props"] or prop in h.get("seam_for", [])
+
+
 def harness_names(prop):
-    return [h["name"] for h in HARNESSES if prop in h["props"]]
+    return [h["name"] for h in HARNESSES if for_prop(h, prop)]
 
 
 def run_custom(rep, prop, only=None, harness_timeout=900, r=None):
-    hs = [h for h in HARNESSES if prop in h["props"] and (only is None or only(h))]
+    hs = [h for h in HARNESSES if for_prop(h, prop) and (only is None or only(h))]
     if not hs:
         return None
     log = os.path.join(kani_run.CACHE, "logs", "%s-custom.log" % prop)
@@ -112,7 +117,7 @@ def run_custom(rep, prop, only=None, harness_timeout=900, r=None):
                 if fc["desc"].startswith("OBL:"):
                     failed[fc["desc"][4:]] = fc
         for oid in ids:
-            if not oid.startswith(prop + "/"):
+            if not oid.startswith(prop + "/") and prop not in h.get("seam_for", []):
                 continue
             if not done:
                 st = (UNDETERMINED, "harness %s did not complete: %s" % (short, res["status"] if res else "no result"))
@@ -185,17 +190,23 @@ VERUS_TRUSTED = {
 }
 
 
-def run_verus_unit(rep, prop, unit, fn_names):
+def run_verus_unit(rep, prop, unit, fn_names, id_prefix=None, seam=False):
+    """id_prefix: which obligations of the unit are registered (default: those of the property);
+    seam=True: the unit discharges a seam contract that the property's own harnesses assume - if the unit is
+    inconclusive (lost anchor) that is recorded as an undischarged assumption, the property's own verdict stands"""
     res = verus_run.unit(unit)
     rep.cmds.append(res.get("cmd", "verus <%s unit>" % unit))
     rep.logs.append(res["path"])
+    if res["status"] != "ok" and seam:
+        rep.assumptions.append("seam contract NOT re-discharged in this run: verus unit %s: %s (the check of the seam's own property reports it)" % (unit, res["status"]))
+        return res
     if res["status"] != "ok":
         rep.inconclusive.append("verus unit %s: %s" % (unit, res["status"]))
         for e in res.get("errors", [])[:3]:
             rep.notes.append("verus: %s (generated line %d)" % (e[0], e[1]))
         return res
     for oid, (st, detail) in res["obls"].items():
-        if not oid.startswith(prop + "/"):
+        if not oid.startswith((id_prefix or prop) + "/"):
             continue
         o = rep.add(Obl(oid, "verus/z3", unit="verus:" + unit, fn=fn_names))
         o.status = DISCHARGED if st == "discharged" else FAILED
